@@ -77,9 +77,35 @@ func c15NotAfter(c *eng.Ctx) {
 		return
 	}
 	const issuerNA = "caSign.ParsedCertBundle.Certificate.NotAfter"
+	// a value "is the issuer's NotAfter" when it is that field read, or a local that, on the
+	// paths with an issuer, only ever holds it (var x time.Time; if caSign != nil { x = caSign...NotAfter })
+	feIssuer := eng.Feasible(f, map[string]bool{`^caSign == nil$`: false})
+	isIssuerNA := func(v ssa.Value) bool {
+		if eng.Expr(v) == issuerNA {
+			return true
+		}
+		if _, isPhi := v.(*ssa.Phi); !isPhi {
+			return false
+		}
+		// the non-phi values merged into v along edges feasible with an issuer
+		var leaves []ssa.Value
+		eng.RootsVisit(v, feIssuer, func(x ssa.Value) bool {
+			if _, isPhi := x.(*ssa.Phi); isPhi {
+				return false
+			}
+			leaves = append(leaves, x)
+			return true
+		})
+		for _, l := range leaves {
+			if eng.Expr(l) != issuerNA {
+				return false
+			}
+		}
+		return len(leaves) > 0
+	}
 	var cmp *ssa.Call
 	for _, a := range eng.Calls(f, `^time\.\(Time\)\.After$`) {
-		if cv, ok := a.(*ssa.Call); ok && eng.Expr(cv.Call.Args[1]) == issuerNA {
+		if cv, ok := a.(*ssa.Call); ok && isIssuerNA(cv.Call.Args[1]) {
 			cmp = cv
 		}
 	}
@@ -87,8 +113,29 @@ func c15NotAfter(c *eng.Ctx) {
 		c.Violation(f, "comparison with the issuer's NotAfter", f.Pos(), "getCertificateNotAfter no longer compares the computed NotAfter with caSign.Certificate.NotAfter", nil)
 		return
 	}
+	// the verdict of the comparison is branched on directly, or kept in a flag whose other values are the constant false
 	exceed, within := eng.BoolEdges(cmp, true), eng.BoolEdges(cmp, false)
+	if refs := cmp.Referrers(); refs != nil {
+		for _, r := range *refs {
+			ph, ok := r.(*ssa.Phi)
+			if !ok {
+				continue
+			}
+			onlyFalse := true
+			for _, l := range c15phiLeaves(ph) {
+				if l != ssa.Value(cmp) && eng.Expr(l) != "false" {
+					onlyFalse = false
+				}
+			}
+			if onlyFalse {
+				exceed = append(exceed, eng.BoolEdges(ph, true)...)
+				within = append(within, eng.BoolEdges(ph, false)...) // compared and within, or no issuer
+			}
+		}
+	}
 	c.Cut(f, "NotAfter returned", succ, eng.Or(eng.G(f, `^caSign == nil$`, true), eng.Guard{Desc: "NotAfter compared with the issuer's NotAfter", Edges: c15edges(exceed, within)}), nil)
+	c15unreach(c, f, "on{issuer present} success needs the comparison with the issuer's NotAfter", eng.Query{Assume: map[string]bool{`^caSign == nil$`: false}, Barriers: []ssa.Instruction{cmp}, Target: eng.IsTarget(succ)}, cmp.Pos(),
+		"with a signing issuer every success passes the comparison of the computed NotAfter with the issuer's", "with a signing issuer a NotAfter can be returned without having been compared with the issuer's NotAfter")
 	permit := eng.G(f, `^caSign\.LeafNotAfterBehavior == `+permitC+`$`, true)
 	trunc := eng.G(f, `^caSign\.LeafNotAfterBehavior == `+truncC+`$`, true)
 	if c.Floor(f, "exceeding arm of the comparison", len(exceed), 1) {
@@ -110,8 +157,8 @@ func c15NotAfter(c *eng.Ctx) {
 				continue
 			}
 			for _, l := range c15leavesFrom(r.Results[0], trunc.Edges) {
-				if s := eng.Expr(l); s != issuerNA {
-					bad = s
+				if !isIssuerNA(l) {
+					bad = eng.Expr(l)
 				}
 			}
 		}
@@ -125,8 +172,8 @@ func c15NotAfter(c *eng.Ctx) {
 	for _, r := range succ {
 		ret := r.(*ssa.Return)
 		bad := ""
-		for _, l := range c15phiLeavesStop(ret.Results[0], cmp.Call.Args[0]) {
-			if l != cmp.Call.Args[0] && eng.Expr(l) != issuerNA {
+		for _, l := range c15phiLeavesUntil(ret.Results[0], func(v ssa.Value) bool { return v == cmp.Call.Args[0] || isIssuerNA(v) }) {
+			if l != cmp.Call.Args[0] && !isIssuerNA(l) {
 				bad = eng.ExprDeep(l)
 			}
 		}
@@ -251,8 +298,8 @@ func c15NotAfter(c *eng.Ctx) {
 	}
 }
 
-// c15phiLeavesStop is c15phiLeaves that does not look through `stop`.
-func c15phiLeavesStop(v, stop ssa.Value) []ssa.Value {
+// c15phiLeavesUntil is c15phiLeaves that does not look through a value accepted by stop.
+func c15phiLeavesUntil(v ssa.Value, stop func(ssa.Value) bool) []ssa.Value {
 	var out []ssa.Value
 	seen := map[ssa.Value]bool{}
 	var walk func(v ssa.Value)
@@ -261,7 +308,7 @@ func c15phiLeavesStop(v, stop ssa.Value) []ssa.Value {
 			return
 		}
 		seen[v] = true
-		if p, ok := v.(*ssa.Phi); ok && v != stop {
+		if p, ok := v.(*ssa.Phi); ok && !stop(v) {
 			for _, e := range p.Edges {
 				walk(e)
 			}
